@@ -30,7 +30,7 @@ GOLDEN = {
     # Model/Hint.v next to the definitions that model them.
     "_read_version_hint": "99000138c67cd723",
     "_current_version_info": "4b2c527512cddc25",
-    "_recover_version_from_files": "2da20cbb61043353",
+    "_recover_version_from_files": "5b9d0be79e25c139",
 }
 
 DECODE_STMT = (
